@@ -102,6 +102,19 @@ CLAIMS = {
          "variable ORC_TARGET is ignored) is reported as KNOWN-FINDING.",
     technique="TLA+ spec + TLC over all CPU descriptions; replay of the states into liborc via a CPUID hook; TLC "
               "trace validation of the reports"),
+ "C20": dict(
+    text="TLC model-checks Registry (opcode sets with first-exact-match lookup, per-target rule sets with "
+         "newest-satisfied-wins lookup) over all registration histories within bounds, names chosen to collide with "
+         "built-ins (proper prefix, extension, identical): BuiltinNamesStable, BuiltinRulesStable, "
+         "NewestSatisfiedWins, AppFound.  Seeded TLC simulations give histories that are replayed in fresh processes of "
+         "the ASan build with self-identifying emulation functions and emitters; TLC validates the recorded events "
+         "against Trace_Registry: Find/Rule of the specification = orc_opcode_find_by_name / orc_target_get_rule, the "
+         "function and emitter that really ran for a program using each name, emulated and native results right.",
+    design_ref="DESIGN.md section 6 C20",
+    note="Target sse only; flags F1/F2 are SSE3 (present) and SSE4A (absent); at most 2 extra opcode sets and 3 extra "
+         "rule sets per history (the rule-set table holds 10); application emitters delegate to built-in rules.",
+    technique="TLA+ spec + TLC (all histories within bounds, seeded simulation for replay); replay into liborc; TLC "
+              "trace validation"),
 }
 
 NOT_APPLICABLE = {
